@@ -67,14 +67,21 @@ HetBetVerdict(e) ==
 \* every added name (MpqBuild!BetFixAnswers); without, nothing ever verifies (MpqBuild!AsIsAlwaysFallsBack)
 HetBetDrift(e) ==
   IF ~e.hb.tables THEN "none"
-  ELSE IF BetFix /\ e.hb.ver = <<>> THEN "hetbet-path-does-not-answer-for-added-file"
   ELSE IF ~BetFix /\ e.hb.ver # <<>> THEN "bet-verifies-although-model-says-hash-mismatch"
   ELSE IF e.hb.classic # e.idx THEN "classic-table-block-differs"
   ELSE "none"
 
+\* On V3/V4 archives of a builder that stores lookup3 BET hashes the HET/BET path itself must answer for every added
+\* name whose 8-bit hash is not the free marker (MpqBuild!BetFixAnswers), with the block the classic table gives
+HetBetPathVerdict(e) ==
+  IF BetFix /\ e.ver >= 3 /\ e.hb.h8 # 255 /\ ~(e.hb.tables /\ e.hb.ver = <<e.idx>> /\ e.hb.classic = e.idx)
+  THEN (IF ~e.hb.tables THEN "hetbet-tables-not-loaded" ELSE "hetbet-path-does-not-answer-for-added-file")
+  ELSE "ok"
+
 FileVerdict(e) ==
   IF ~e.found THEN "added-file-not-found"
   ELSE IF HetBetVerdict(e) # "ok" THEN HetBetVerdict(e)
+  ELSE IF HetBetPathVerdict(e) # "ok" THEN HetBetPathVerdict(e)
   ELSE IF \A j \in 1..4 : Exact(e, e.reads[j]) THEN "ok"
   ELSE LET b == ObsBlock(e)
            pred == ReadBlock(b, <<>>)
@@ -124,7 +131,12 @@ EmbeddedVerdict(e) ==
 Verdict(e) == CASE e.ev = "Reset"  -> (IF e.S = SectorSize THEN "ok" ELSE "shard-sector-size-mismatch")
                 \* an error ends the behaviour (allowed); a panic / hang of build() is not "reports an error"
                 [] e.ev = "Build"  -> (IF e.res \in {"panic", "hang"} THEN "build-" \o e.res ELSE "ok")
-                [] e.ev = "Open"   -> (IF e.res = "ok" THEN "ok" ELSE "open-failed")
+                \* opening must not silently drop a table the builder wrote: classic hash and block tables always,
+                \* HET and BET for V3/V4 (the hi-block table is only written when some position needs it)
+                [] e.ev = "Open"   -> (IF e.res # "ok" THEN "open-failed"
+                                       ELSE IF ~(e.loaded.hash /\ e.loaded.block) THEN "classic-table-dropped"
+                                       ELSE IF e.ver >= 3 /\ ~(e.loaded.het /\ e.loaded.bet) THEN "hetbet-table-dropped"
+                                       ELSE "ok")
                 [] e.ev = "File"   -> FileVerdict(e)
                 [] e.ev = "Absent" -> AbsentVerdict(e)
                 [] e.ev = "List"   -> ListVerdict(e)
